@@ -97,6 +97,8 @@ R.contract('labtech.tasks:get_direct_dependencies',
         C("forall('Inst', lambda i: implies(i in result, Inst_to_Task(i) in deps(Inst_to_Task(task))))", 'sound', serves=('C02', 'C03', 'C01')),
         C("forall('Task', lambda d: implies(d in deps(Inst_to_Task(task)), exists('Inst', lambda i: (i in result) and (Inst_to_Task(i) == d))))",
           'complete-by-value', serves=('C02', 'C01', 'C03')),
+        C("forall('Inst', lambda i: implies(i in depinsts(task), i in result))",
+          'complete-by-instance: every dependency instance in the parameters is returned', serves=('C01', 'C02', 'C03')),
     ],
     note='verified separately against the value-tree spec (contracts/c60_values.py); used here through its contract only')
 
